@@ -182,37 +182,13 @@ func observe(entries []logEntry) *streamObs {
 	return o
 }
 
-// threads builds the receiver-loop sequence R and the Responder sequence Q with their ordering
+// threads builds the receiver-loop sequence R and the Responder's groups with their ordering
 // constraints (see DESIGN notes in lean/Stef/Receiver.lean):
-//   - what precedes the log entry of a send (tick / badRecv.. badDone: the loads and channel
-//     receives) precedes every receiver event whose log entry is later and which happens after its
-//     entry is written (consume = return of ConsumeMetrics);
+//   - what precedes the log entry of a send (tick / tickNoBad / tickAck / badRecv.. badDone: the
+//     loads and channel receives) precedes every receiver event whose log entry is later and which
+//     happens after its entry is written (consume = return of ConsumeMetrics);
 //   - a decode whose entry precedes the entry of a send precedes that send's result.
-func (o *streamObs) threads() (R, Q []mevent) {
-	// Q
-	preEnd := make([]int, len(o.sends)) // index in Q just after tick/badDone of send j
-	resIdx := make([]int, len(o.sends)) // index in Q of the send result of send j
-	for j, s := range o.sends {
-		if len(s.ranges) == 0 {
-			Q = append(Q, mevent{kind: "tick", ack: s.ack})
-		} else {
-			Q = append(Q, mevent{kind: "badRecv"})
-			for k := 1; k < len(s.ranges); k++ {
-				Q = append(Q, mevent{kind: "badMore"})
-			}
-			Q = append(Q, mevent{kind: "badDone", ack: s.ack, ranges: s.ranges})
-		}
-		preEnd[j] = len(Q)
-		resIdx[j] = len(Q)
-		k := "sendOk"
-		if !s.ok {
-			k = "sendFail"
-		}
-		Q = append(Q, mevent{kind: k, ack: s.ack, ranges: s.ranges})
-	}
-	if o.runStopped {
-		Q = append(Q, mevent{kind: "stop"})
-	}
+func (o *streamObs) threads() (R []mevent, groups []qgroup) {
 	// R
 	decodeIdx := make([]int, len(o.batches))
 	for i, b := range o.batches {
@@ -224,11 +200,11 @@ func (o *streamObs) threads() (R, Q []mevent) {
 		}
 		need := 0
 		for j, s := range o.sends {
-			if s.seq < b.consumeSeq && preEnd[j] > need {
-				need = preEnd[j]
+			if s.seq < b.consumeSeq && j+1 > need {
+				need = j + 1
 			}
 		}
-		R = append(R, mevent{kind: "consume", out: b.out, need: need})
+		R = append(R, mevent{kind: "consume", out: b.out, needSends: need})
 		last := i == len(o.batches)-1
 		switch b.out {
 		case "accept":
@@ -246,16 +222,65 @@ func (o *streamObs) threads() (R, Q []mevent) {
 	case "readfail":
 		R = append(R, mevent{kind: "checkErr"}, mevent{kind: "readFail"})
 	}
-	for j, s := range o.sends {
+	// the Responder
+	result := func(s sendObs) mevent {
+		k := "sendOk"
+		if !s.ok {
+			k = "sendFail"
+		}
 		need := 0
 		for i, b := range o.batches {
 			if b.decodeSeq < s.seq && decodeIdx[i] > need {
 				need = decodeIdx[i]
 			}
 		}
-		Q[resIdx[j]].need = need
+		return mevent{kind: k, ack: s.ack, ranges: s.ranges, need: need}
 	}
-	return R, Q
+	compose := func(s sendObs) []mevent {
+		evs := []mevent{{kind: "badRecv"}}
+		for k := 1; k < len(s.ranges); k++ {
+			evs = append(evs, mevent{kind: "badMore"})
+		}
+		return append(evs, mevent{kind: "badDone", ack: s.ack, ranges: s.ranges})
+	}
+	for j := 0; j < len(o.sends); {
+		s := o.sends[j]
+		switch {
+		case len(s.ranges) > 0 && j+1 < len(o.sends) && len(o.sends[j+1].ranges) == 0:
+			t := o.sends[j+1]
+			var fused, split qalt
+			fused.evs = append(fused.evs, mevent{kind: "tick", ack: t.ack, fused: true})
+			fused.evs = append(fused.evs, compose(s)...)
+			fused.preEnd = append(fused.preEnd, len(fused.evs))
+			fused.evs = append(fused.evs, result(s), mevent{kind: "tickAck", ack: t.ack})
+			fused.preEnd = append(fused.preEnd, len(fused.evs))
+			fused.evs = append(fused.evs, result(t))
+			split.evs = compose(s)
+			split.preEnd = append(split.preEnd, len(split.evs))
+			split.evs = append(split.evs, result(s), mevent{kind: "tick", ack: t.ack}, mevent{kind: "tickNoBad"},
+				mevent{kind: "tickAck", ack: t.ack})
+			split.preEnd = append(split.preEnd, len(split.evs))
+			split.evs = append(split.evs, result(t))
+			groups = append(groups, qgroup{nsends: 2, alts: []qalt{fused, split}})
+			j += 2
+		case len(s.ranges) > 0:
+			a := qalt{evs: compose(s)}
+			a.preEnd = []int{len(a.evs)}
+			a.evs = append(a.evs, result(s))
+			groups = append(groups, qgroup{nsends: 1, alts: []qalt{a}})
+			j++
+		default:
+			a := qalt{evs: []mevent{{kind: "tick", ack: s.ack}, {kind: "tickNoBad"}, {kind: "tickAck", ack: s.ack}}}
+			a.preEnd = []int{len(a.evs)}
+			a.evs = append(a.evs, result(s))
+			groups = append(groups, qgroup{nsends: 1, alts: []qalt{a}})
+			j++
+		}
+	}
+	if o.runStopped {
+		groups = append(groups, qgroup{alts: []qalt{{evs: []mevent{{kind: "stop"}}}}})
+	}
+	return R, groups
 }
 
 // ---- the property, evaluated directly on what was observed -------------------------------------
@@ -390,6 +415,32 @@ func checkC16(c *caseOut, o *streamObs, opt oracleOpts) {
 	}
 }
 
+// raceWindows counts the situations in which, before fix 3888867, Run's select had its tick branch
+// and its bad-data branch ready at the same time with the acknowledgement the larger of the two: a
+// bad-data response is followed by the acknowledgement of a LATER batch which the consumer had
+// already accepted when the bad-data response was sent.
+func (o *streamObs) raceWindows() int {
+	n := 0
+	for j := 0; j+1 < len(o.sends); j++ {
+		s, t := o.sends[j], o.sends[j+1]
+		if len(s.ranges) == 0 || len(t.ranges) != 0 {
+			continue
+		}
+		maxTo := 0
+		for _, r := range s.ranges {
+			if r.to > maxTo {
+				maxTo = r.to
+			}
+		}
+		for _, b := range o.batches {
+			if b.to == t.ack && b.out == "accept" && t.ack > maxTo && b.consumeSeq >= 0 && b.consumeSeq < s.seq {
+				n++
+			}
+		}
+	}
+	return n
+}
+
 func (o *streamObs) sendsStr() string {
 	s := ""
 	for j, x := range o.sends {
@@ -419,8 +470,8 @@ func (o *streamObs) batchesStr() string {
 // finishC16 linearises, prints the op lines, evaluates the oracle and the non-triviality rule.
 func finishC16(c *caseOut, entries []logEntry, opt oracleOpts) *streamObs {
 	o := observe(entries)
-	R, Q := o.threads()
-	evs, ok := linearise(R, Q)
+	R, groups := o.threads()
+	evs, ok := linearise(R, groups)
 	if !ok {
 		c.note("note case %s: no interleaving of the recorded thread sequences is accepted by the mirror; batches=%s sends=%s",
 			c.name, o.batchesStr(), o.sendsStr())
@@ -447,6 +498,13 @@ func finishC16(c *caseOut, entries []logEntry, opt oracleOpts) *streamObs {
 		}
 	}
 	c.stat("multi-range-responses", multi)
+	for _, e := range evs {
+		if e.fused {
+			// the interleaving found sends a bad-data response from inside the tick branch
+			c.stat("tick-branch-bad-data", 1)
+		}
+	}
+	c.stat("race-windows", o.raceWindows())
 	c.stat("exit-"+o.exit, 1)
 	if nperm >= 1 && len(o.sends) >= 2 {
 		h := uint64(1469598103934665603)
